@@ -32,6 +32,11 @@ async def nm_individual_address_check_conn(conn: P2PConnection) -> bool:
         logger.debug("Device found at %s", conn.address)
         return True
     except ManagementConnectionTimeout as ex:
+        if conn.peer_seen:
+            # eg. the request was acknowledged, or answered while its
+            # acknowledgement got lost - somebody uses this address
+            logger.debug("Device at %s did not answer in time. %s", conn.address, ex)
+            return True
         logger.debug("No device answered to connection attempt. %s", ex)
         return False
     except ManagementConnectionRefused as ex:
